@@ -63,6 +63,8 @@ type esFlush struct{ ch chan struct{} }
 type esSub struct {
 	mu  sync.Mutex
 	got []esEvent
+	// crashOn: the subscriber fails (once) while handling these events, after having taken note of them
+	crashOn map[int]bool
 }
 
 func (s *esSub) Receive(c *actor.Context) {
@@ -71,7 +73,12 @@ func (s *esSub) Receive(c *actor.Context) {
 		userPerturb()
 		s.mu.Lock()
 		s.got = append(s.got, m)
+		boom := s.crashOn[m.N]
+		delete(s.crashOn, m.N)
 		s.mu.Unlock()
+		if boom {
+			panic("verif: a subscriber that fails on an event")
+		}
 	case esFlush:
 		close(m.ch)
 	}
@@ -136,10 +143,20 @@ func c12Hist(c *caseCtx) (res caseResult) {
 	nL := 1 + r.Intn(6)
 	subs := make([]*esSub, nL)
 	pids := make([][]*actor.PID, nL) // several PID objects per actor
+	crashy := 0
 	for i := range subs {
 		s := &esSub{}
 		subs[i] = s
-		p := e.Spawn(func() actor.Receiver { return s }, "sub", actor.WithID(fmt.Sprint(i)))
+		if r.Intn(4) == 0 {
+			// a subscriber that fails now and then and is restarted: what was queued behind the failing event
+			// reaches it first, later broadcasts after that
+			s.crashOn = map[int]bool{}
+			for k := 0; k < 3; k++ {
+				s.crashOn[1+r.Intn(40)] = true
+			}
+			crashy++
+		}
+		p := e.Spawn(func() actor.Receiver { return s }, "sub", actor.WithID(fmt.Sprint(i)), actor.WithMaxRestarts(1000), actor.WithRestartDelay(pick(r, 200*time.Microsecond, time.Millisecond)))
 		pids[i] = []*actor.PID{p, actor.NewPID(p.Address, p.ID), p.CloneVT()}
 	}
 	// subscribers on other nodes: the same id as a local subscriber under another address, and pairs whose
@@ -263,7 +280,7 @@ func c12Hist(c *caseCtx) (res caseResult) {
 		for _, o := range ops {
 			shape = append(shape, o[0])
 		}
-		res.Sig = sigHash("hist", nA, nA-nL, string(shape), dbl, cross)
+		res.Sig = sigHash("hist", nA, nA-nL, string(shape), dbl, cross, crashy)
 	}
 	if c.n < 4 || res.Verdict == vViolated {
 		res.Sample = map[string]any{"scenario": res.Desc, "ops": ops}
